@@ -8,6 +8,7 @@
 
 from __future__ import annotations
 
+import copy
 import weakref
 from collections import ChainMap, defaultdict
 from collections.abc import Callable, Iterable
@@ -243,6 +244,20 @@ class Context:
     def _redefine(self, definition: UnitDefinition):
         self.redefinitions.append(definition)
 
+    def __deepcopy__(self, memo):
+        # A copy of a WeakValueDictionary shares its values: the rules of the copy
+        # must lead to the copy, not back to this context.
+        new = object.__new__(type(self))
+        memo[id(self)] = new
+        for key, value in self.__dict__.items():
+            if key != "relation_to_context":
+                setattr(new, key, copy.deepcopy(value, memo))
+        new.relation_to_context = weakref.WeakValueDictionary()
+        for edge in self.relation_to_context:
+            new.relation_to_context[copy.deepcopy(edge, memo)] = new
+        memo[id(self.relation_to_context)] = new.relation_to_context
+        return new
+
     def hashable(
         self,
     ) -> tuple[
@@ -279,6 +294,13 @@ class ContextChain(ChainMap[SrcDst, Context]):
         self.contexts: list[Context] = []
         self.maps.clear()  # Remove default empty map
         self._graph: dict[SrcDst, set[UnitsContainer]] | None = None
+
+    def __deepcopy__(self, memo):
+        new = type(self)()
+        memo[id(self)] = new
+        new.contexts = copy.deepcopy(self.contexts, memo)
+        new.maps = [ctx.relation_to_context for ctx in new.contexts]
+        return new
 
     def insert_contexts(self, *contexts: Context):
         """Insert one or more contexts in reversed order the chained map.
